@@ -9,7 +9,7 @@ Correspondence (implementation vs the Lean model through the driver):
      table of prescribed step suites (all TestStatus values / None, arbitrary test lists): merged suite's
      bool, status, tests and the ordered (result step, reference step) pairs
   F  the CLI `fieldcompare._cli.main(["file", a.pvd, b.pvd, ...])`: exit code and the ordered
-     'Comparing step i of m' lines, lengths 1..8, deviating step (value / mesh / missing field) at every
+     step comparisons performed (calls of `_compare_field_data`, NOT log text), lengths 1..8, deviating step (value / mesh / missing field) at every
      position, all three sequence options; sequence vs single data set; (thorough) XDMF time series
 
 Search: implementation vs the property (Python oracle): each iteration yields 0..n-1 in order, compared
@@ -19,14 +19,12 @@ from __future__ import annotations
 import io
 import itertools
 import os
-import re
 import shutil
 import tempfile
 
 TS_NAMES = ["passed", "failed", "error", "skipped"]
 FALSY = {"failed", "error"}
 OPT_FLAGS = {"ignore": "--ignore-missing-sequence-steps", "force": "--force-sequence-comparison"}
-STEP_RE = re.compile(r"Comparing step (\d+) of (\d+)")
 
 
 # ------------------------------------------------------------------ small helpers
@@ -275,9 +273,8 @@ def run_compare_stub(case):
         return {"kind": "R", "pairs": pairs}
     except Exception as e:
         return {"kind": f"raised-out:{type(e).__name__}", "pairs": pairs}
-    log_steps = [[int(a), int(b)] for a, b in STEP_RE.findall(out.getvalue())]
     return {"kind": "S", "bool": bool(suite), "status": suite.status.name, "tests": [t.status.name for t in suite],
-            "pairs": pairs, "log": log_steps}
+            "pairs": pairs}
 
 
 def enc_cmp(case) -> str:
@@ -366,8 +363,6 @@ def check_cmp(ctx, case, got, rep):
             return
         if got["pairs"] != orc["pairs"]:
             ctx.violation(case, got["pairs"], orc["pairs"], what="compared (result step, reference step) pairs")
-        if got["log"] != [[i, min(case["nres"], case["nref"])] for i, _ in orc["pairs"]]:
-            ctx.violation(case, got["log"], orc["pairs"], what="'Comparing step i of m' log lines")
         if cons and got["bool"] != orc["bool"]:
             ctx.violation(case, got["bool"], orc["bool"], what="sequence verdict differs from: lengths equal-or-ignored and all common steps pass")
 
@@ -467,16 +462,38 @@ class Files:
 
 
 def run_cli(argv):
+    """-> (exit code, indices of the step comparisons performed, in order).  The steps are observed as calls of
+    `FileComparison._compare_field_data` made from `_compare_field_sequences` (the same seam part M stubs), never
+    through the wording of the log (log text is outside every claim, DESIGN §5 item 5)."""
     from fieldcompare._cli import main
     from fieldcompare._cli._logger import CLILogger
+    from fieldcompare._cli._file_comparison import FileComparison
     out = io.StringIO()
+    steps, depth = [], [0]
+    orig_seq, orig_data = FileComparison._compare_field_sequences, FileComparison._compare_field_data
+
+    def seq(self, *a, **kw):
+        depth[0] += 1
+        try:
+            return orig_seq(self, *a, **kw)
+        finally:
+            depth[0] -= 1
+
+    def data(self, *a, **kw):
+        if depth[0]:
+            steps.append(len(steps))
+        return orig_data(self, *a, **kw)
+
+    FileComparison._compare_field_sequences, FileComparison._compare_field_data = seq, data
     try:
         rc = main(argv, logger=CLILogger(output_stream=out))
     except SystemExit as e:      # argparse
         rc = f"SystemExit({e.code})"
     except Exception as e:
         rc = f"raised-out:{type(e).__name__}"
-    return rc, [[int(a), int(b)] for a, b in STEP_RE.findall(out.getvalue())]
+    finally:
+        FileComparison._compare_field_sequences, FileComparison._compare_field_data = orig_seq, orig_data
+    return rc, steps
 
 
 _step_cache = {}
@@ -550,7 +567,7 @@ def check_file(ctx, case, got, facts, rep):
     nres, nref = len(case["res"]), len(case["ref"])
     m = min(nres, nref)
     early = nres != nref and not case["ignore"] and not case["force"]
-    exp_steps = [] if early else [[i, m] for i in range(m)]
+    exp_steps = [] if early else list(range(m))
     exp_exit = 0 if ((nres == nref or case["ignore"]) and all(facts)) else 1
     if rep is not None:
         if rep.get("model") != str(got["exit"]):
@@ -559,7 +576,7 @@ def check_file(ctx, case, got, facts, rep):
         if got["exit"] != exp_exit:
             ctx.violation(case, got, {"exit": exp_exit, "steps": exp_steps}, what="exit code of `fieldcompare file a.pvd b.pvd`")
         elif got["steps"] != exp_steps:
-            ctx.violation(case, got, {"exit": exp_exit, "steps": exp_steps}, what="'Comparing step' lines of the CLI")
+            ctx.violation(case, got, {"exit": exp_exit, "steps": exp_steps}, what="step comparisons performed by the CLI")
 
 
 def part_F(ctx, files):
@@ -664,7 +681,7 @@ def part_X(ctx):
                 rc, steps = run_cli(["file", f"res{n}.xdmf", f"ref{n}.xdmf"])
                 ctx.case(("X", n, p), tags=["X-xdmf-cli"])
                 exp = 0 if p is None else 1
-                if rc != exp or steps != [[i, n] for i in range(n)]:
+                if rc != exp or steps != list(range(n)):
                     ctx.violation({"part": "X", "n": n, "deviating": p}, {"exit": rc, "steps": steps}, {"exit": exp},
                                   what="XDMF time series comparison")
     finally:
